@@ -120,6 +120,10 @@ TzPiece(c, mk, off) ==          \* off: offset in minutes
         ELSE IF Len(f) = 5 /\ AllDigits(SubSeq(f, 1, 2)) /\ AllDigits(SubSeq(f, 4, 5)) /\ ~IsDig(f[3]) /\ ~((f[3] >= 65 /\ f[3] <= 90) \/ (f[3] >= 97 /\ f[3] <= 122))
              THEN Lit(prefix \o sign \o PadInt(h, 2) \o <<f[3]>> \o PadInt(m, 2))
         ELSE IF AllDigits(f) /\ Len(f) = 4 THEN Lit(prefix \o sign \o PadInt(h * 100 + m, 4))
+        \* [ZZ]: the military letter of a whole-hour offset within twelve hours - Z for UTC, A..I for +1..+9, K..M for +10..+12
+        \* (there is no J), N..Y for -1..-12; other offsets fall back to a numeric form (left open)
+        ELSE IF f = <<90>> /\ mk.mod = "" /\ m = 0 /\ h <= 12
+             THEN Lit(<<(IF h = 0 THEN 90 ELSE IF off > 0 THEN (IF h <= 9 THEN 64 + h ELSE 65 + h) ELSE 77 + h)>>)
         ELSE OpenPiece
 
 ComponentPiece(mk0, day, ms, off) ==
